@@ -132,17 +132,16 @@ theorem tinv_wRecv {F : File} (hok : F.ok) {s s' : DSt} (i : Nat) (hI : DInv F s
           rw [hmc] at hch
           simp only [Chain] at hch
           obtain ⟨c1, c2, c3⟩ := hch
-          simp only at c1 c2 c3
           have hq' : qOf { s with reqc := rest } = it.hi := chain_head c3
           have hle := hT.le
           refine ⟨fun x => ?_, ?_, ?_, ?_, hT.roi, hT.cur⟩
           · show occItems s.completed x + occItems s.resc x + occWs (s.ws.set i _) x = ind (nextPos s) (qOf { s with reqc := rest }) x
-            rw [hq']
+            rw [hq', occWs_set_eq x hi]
             have h0 := hT.occ x
+            have h2 := occWs_get_le x s.ws i w hi
             simp only [occ] at h0
-            have h1 := occWs_set x s.ws i w { w with w := { w.w with dr := some it.it.epoch }, dlo := it.lo, dhi := it.hi, rd := rd' } hi
             simp only [occW, hg.2.1, hg.2.2, Option.isSome_none, Bool.false_eq_true, ↓reduceIte,
-              Option.isSome_some] at h1
+              Option.isSome_some] at h2 ⊢
             have a1 := ind_spec it.lo it.hi x
             have a2 := ind_spec (nextPos s) (qOf s) x
             have a3 := ind_spec (nextPos s) it.hi x
@@ -178,6 +177,19 @@ theorem tinv_mgrSend {F : File} {s s' : DSt} (hI : DInv F s)
         Option.isSome_none, Bool.false_eq_true, List.append_assoc, List.nil_append, List.cons_append]
     · cases h
   · cases h
+
+theorem mchain_fut_nil (s : DSt) (h : ¬ (s.mgr.m.inputOn = false ∧ s.mgr.cur < s.mgr.rhi)) :
+    mchain s = s.reqc.map (fun it => (it.lo, it.hi)) ++
+      (if s.mgr.m.work.isSome then [(s.mgr.wlo, s.mgr.whi)] else []) := by
+  simp only [mchain, h, ↓reduceIte, List.append_nil]
+
+/-- two states whose Manager has nothing left to look at have the same chain if they agree on
+    reqc and on the request in the Manager's hand -/
+theorem mchain_eq_of_fut_nil {s s' : DSt} (h : ¬ (s.mgr.m.inputOn = false ∧ s.mgr.cur < s.mgr.rhi))
+    (h' : ¬ (s'.mgr.m.inputOn = false ∧ s'.mgr.cur < s'.mgr.rhi))
+    (e1 : s'.reqc = s.reqc) (e2 : s'.mgr.m.work = s.mgr.m.work) (e3 : s'.mgr.wlo = s.mgr.wlo)
+    (e4 : s'.mgr.whi = s.mgr.whi) : mchain s' = mchain s := by
+  rw [mchain_fut_nil s h, mchain_fut_nil s' h', e1, e2, e3, e4]
 
 theorem active_of_eq {s s' : DSt} (h1 : s'.seekResolved = s.seekResolved) (h2 : s'.main = s.main)
     (ha : Active s') : Active s := by
@@ -217,10 +229,8 @@ theorem tinv_mgrMake {F : File} (hok : F.ok) {s s' : DSt} (hI : DInv F s)
         have hr := hI.rhi
         refine tinv_mk2 hT (by rw [← h]) (by rw [← h]) (by rw [← h]) (by rw [← h]) (by rw [← h]) (by rw [← h])
           (by rw [← h]) ?_ (by rw [← h]; exact hrs) (by rw [← h]; exact hT.cur)
-        have e : mchain s' = mchain s := by
-          rw [← h]
-          simp only [mchain, hg.2.1]
-          rw [if_neg (by simp), if_neg (by omega)]
+        have e : mchain s' = mchain s :=
+          mchain_eq_of_fut_nil (by omega) (by rw [← h]; simp) (by rw [← h]) (by rw [← h]) (by rw [← h]) (by rw [← h])
         rw [e]; exact hT.chain
       · next hcur =>
         obtain ⟨c, hc1, hc2, hc3, hc4, hc5⟩ := File.find hok.1 (p := s.mgr.cur) (by omega)
@@ -236,10 +246,8 @@ theorem tinv_mgrMake {F : File} (hok : F.ok) {s s' : DSt} (hI : DInv F s)
           have hcu : s'.mgr.cur = c.hi := by rw [← h]
           refine tinv_mk2 hT (by rw [← h]) (by rw [← h]) (by rw [← h]) (by rw [← h]) (by rw [← h]) (by rw [← h])
             (by rw [← h]) ?_ (by rw [← h]; exact hrs) ?_
-          · have e : mchain s' = mchain s := by
-              rw [← h]
-              simp only [mchain, hg.2.1]
-              rw [if_neg (by simp), if_neg (by omega)]
+          · have e : mchain s' = mchain s :=
+              mchain_eq_of_fut_nil (by omega) (by rw [← h]; simp) (by rw [← h]) (by rw [← h]) (by rw [← h]) (by rw [← h])
             rw [e]; exact hT.chain
           · rw [hcu]
             exact ⟨by have := hT.cur.1; omega, Or.inr hbnd⟩
@@ -294,10 +302,13 @@ theorem tinv_mgrMake {F : File} (hok : F.ok) {s s' : DSt} (hI : DInv F s)
             have hcu : s'.mgr.cur = c.hi := by rw [← h]
             refine tinv_mk2 hT (by rw [← h]) (by rw [← h]) (by rw [← h]) (by rw [← h]) (by rw [← h]) (by rw [← h])
               (by rw [← h]) ?_ (by rw [← h]; exact hrs) ?_
-            · have e : mchain s' = mchain s := by
-                rw [← h]
-                simp only [mchain, hg.2.1]
-                rw [if_neg (by omega), if_neg (by omega)]
+            · have e : mchain s' = mchain s :=
+                mchain_eq_of_fut_nil (by omega)
+                  (by
+                    have e1 : s'.mgr.cur = c.hi := by rw [← h]
+                    have e2 : s'.mgr.rhi = s.mgr.rhi := by rw [← h]
+                    rw [e1, e2]; omega)
+                  (by rw [← h]) (by rw [← h]) (by rw [← h]) (by rw [← h])
               rw [e]; exact hT.chain
             · rw [hcu]
               exact ⟨by have := hT.cur.1; omega, Or.inr hbnd⟩
